@@ -1,9 +1,34 @@
 import Pose.Wire
 import Pose.Driver.Lie
-/-! Driver ops for C05. -/
+import Pose.Model.Tangent
+/-! Driver ops for C05: `+` / `add` / `add_` on group and algebra elements, `SO3Type.Jr`.
+
+`<T>.add <eps> <alpha> <X…> <other…>` : `X + alpha*other` (group: `Exp((alpha*other)[:m])·X`; `other` may be longer
+than the manifold dimension), `<t>.add <eps> <alpha> <x…> <other…>` : algebra `x + (alpha*other)[:m]`,
+`SO3.Jr <eps> <X>` : `X.Log().Jr()`.  (`Adj`, `AdjT`, `Retr`, `Jinvp`, `so3.Jr` are Lie ops.) -/
 namespace PP.Driver
 open PP Wire
 
-def opsC05 : List (String × Handler) := []
+/-- `eps :: alpha :: X (n numbers) ++ other` -/
+def addOp (n : Nat) (f : B → List B → List B → Option (List B)) : Handler := numeric fun xs =>
+  match xs with
+  | eps :: alpha :: rest =>
+    if rest.length < n then .error "arity" else
+      match f eps (rest.take n) (scaleList alpha (rest.drop n)) with
+      | some r => .ok r
+      | none => .error "short"
+  | _ => .error "arity"
+
+def opsC05 : List (String × Handler) := [
+  ("SO3.add", addOp 4 fun e x o => (SO3Add e (qt x) o).map Quat.toList),
+  ("SE3.add", addOp 7 fun e x o => (SE3Add e (toSE3 x) o).map SE3.toList),
+  ("RxSO3.add", addOp 5 fun e x o => (RxSO3Add e (toRx x) o).map RxSO3.toList),
+  ("Sim3.add", addOp 8 fun e x o => (Sim3Add e (toSim x) o).map Sim3.toList),
+  ("so3.add", addOp 3 fun _ x o => algAdd x o),
+  ("se3.add", addOp 6 fun _ x o => algAdd x o),
+  ("rxso3.add", addOp 4 fun _ x o => algAdd x o),
+  ("sim3.add", addOp 7 fun _ x o => algAdd x o),
+  ("SO3.Jr", withEps 4 fun e l => (SO3Jr e (qt l)).toList)
+]
 
 end PP.Driver
